@@ -49,6 +49,9 @@ type Config struct {
 	PriceFeed    bool    `json:"price_feed"`
 	PBadRate     float64 `json:"p_bad_rate"`
 	PInvalid     float64 `json:"p_invalid_args"`
+	PPrefixName  float64 `json:"p_prefix_name"`
+	PThrFlip     float64 `json:"p_threshold_flip"`
+	PRollback    float64 `json:"p_rolled_back_edit"`
 }
 
 // Module implements engine.Module.
@@ -60,10 +63,12 @@ type Module struct {
 	ord   []string
 
 	// observations of the current block, consumed in OnCommit
-	edits []editEvent
-	resps []respEvent
-	msgs  map[string]bool // feeds whose state an accepted start/pause message changed this block
-	cbs   []servicemod.CallbackRecord
+	edits  []editEvent
+	resps  []respEvent
+	msgs   map[string]bool // feeds whose state an accepted start/pause message changed this block
+	below  map[string]bool // feeds one of whose batches completed below its threshold in this block
+	thrMid map[string]bool // feeds one of whose batches completed after its threshold was edited mid-batch
+	cbs    []servicemod.CallbackRecord
 
 	// generator-side state
 	nextFeed   int
@@ -75,7 +80,7 @@ type Module struct {
 }
 
 func New() *Module {
-	return &Module{feeds: map[string]*feed{}, msgs: map[string]bool{}, responders: map[string]bool{},
+	return &Module{feeds: map[string]*feed{}, msgs: map[string]bool{}, below: map[string]bool{}, thrMid: map[string]bool{}, responders: map[string]bool{},
 		drained: map[int]bool{}, pfPriced: map[string]int64{}}
 }
 
@@ -93,7 +98,7 @@ func (m *Module) svc(w *engine.World) *servicemod.Module {
 }
 
 func (m *Module) Configure(w *engine.World, r *engine.Rand) any {
-	c := Config{Salt: r.Uint64(), MaxFeeds: 1 + r.Intn(4)}
+	c := Config{Salt: r.Uint64(), MaxFeeds: 2 + r.Intn(4)}
 	c.PStranger = 0.3 * r.Float()
 	c.PBoundary = 0.5 * r.Float()
 	if r.Bool(0.6) {
@@ -124,6 +129,9 @@ func (m *Module) Configure(w *engine.World, r *engine.Rand) any {
 	c.PriceFeed = r.Bool(0.55)
 	c.PBadRate = []float64{0, 0, 0.1, 0.3}[r.Intn(4)]
 	c.PInvalid = 0.08 * r.Float()
+	c.PPrefixName = []float64{0.3, 0.6, 0.9}[r.Intn(3)]
+	c.PThrFlip = []float64{0.3, 1, 2}[r.Intn(3)]
+	c.PRollback = []float64{0.3, 0.7, 1.5}[r.Intn(3)]
 	return c
 }
 
@@ -229,6 +237,10 @@ func (m *Module) Build(w *engine.World, op *engine.Op) (sdk.Msg, error) {
 		return &oracletypes.MsgEditFeed{FeedName: a.Name, Description: desc, LatestHistory: a.History,
 			Providers: a.Providers, Timeout: a.Timeout, ServiceFeeCap: stake(a.FeeCap), RepeatedFrequency: a.Freq,
 			ResponseThreshold: a.Threshold, Creator: sender}, nil
+	case "fail":
+		// valid for the ante handler, fails at execution: sinks the whole transaction
+		impossible := sdk.NewCoins(sdk.NewCoin(Std, engine.Int(new(big.Int).Lsh(big.NewInt(1), 250))))
+		return engine.BankSendMsg(w.A(op.Actor).Addr, w.A(op.Actor).Addr, impossible), nil
 	case "drain", "refill":
 		var a sendArgs
 		op.Decode(&a)
